@@ -57,6 +57,19 @@ RULE = ("2D runs (shelf / VISF / jacket) and 1D runs (shelf / VISF) on vials off
 EXPLANATION = ("Lean theorems over the reals for the exact parts (1D cooling stage, nucleation jump, jacket ghost "
                "value) + differential check of the 2D model against _run_2D + enthalpy accounting on real fields")
 PARALLEL = True
+
+# --- regeneration tie (harness/gentie.py): the formulas of the hand model SnowModel/Snowing2D.lean are re-derived
+# from /repo's source on every run and proved equal to the generated text (lean/SnowProofs/Props/GenTie/)
+import gentie  # noqa: E402
+THEOREMS = THEOREMS + gentie.theorems("2D")
+extra_lean_targets = list(globals().get("extra_lean_targets", [])) + [gentie.module("2D")]
+TRUSTED = TRUSTED + ["harness/translate.py formula extraction (single assignments of the run loop -> Lean definitions; "
+                     "anything outside its tiny language is a TranslatorError)"]
+
+
+def regenerate():
+    gentie.regenerate("2D")
+
 LEVEL_TEXT = ("PARTIAL proof. Lean 4 theorems (exact reals) about the executable models: the 1D cooling stage conserves "
               "energy exactly (telescoping identity with ghost points, any Nz >= 2); the nucleation jump is adiabatic "
               "pointwise in 0D/1D/2D with T_nuc < T* < T_eq_l and 0 < m_i < m_w; the side ghost value imposes "
